@@ -39,6 +39,8 @@ def gen_history(rng, tid, maxlen, maxcalls):
                  tmo=rng.choice(['pos', 'pos', 'pos', 'zero', 'default']), mode=rng.choice(['async', 'async', 'sync']))
         if rng.random() < 0.3:
             c['at'] = rng.choice([0.5, 1.0, 2.0, 4.0])
+            if rng.random() < 0.5:
+                c['idle'] = 'yield'          # the coroutine yields to the loop until then instead of blocking it
         calls.append(c)
     return run_history(mapping, stream, arr, calls, tid)
 
@@ -165,17 +167,16 @@ def run(ctx):
     cands = [t for t in uniq if verdicts[t['id']][0] == 'ok'
              and any(e['e'] == 'ret' and e['kind'] == 'match' and e['before'] for e in t['ev'])
              and any(e['e'] == 'call' and e.get('mode') == 'async' for e in t['ev'])]
-    if not cands:
-        raise tlc.TLCError('self-test: no suitable trace')
-    a = copy.deepcopy(cands[0]); a['id'] = 'corrupt'
-    for e in a['ev']:
-        if e['e'] == 'ret' and e['kind'] == 'match' and e['before']:
-            e['before'] = e['before'][1:]
-            break
-    v2, _ = tracecheck.validate([a], 'ExpectTrace', ctx.work, constants=TRACE_CONSTS, procs=1, tag='selftest')
-    if v2['corrupt'][0] == 'ok':
-        raise tlc.TLCError('self-test: corrupted awaited trace accepted')
-    ctx.note('binding self-test: corrupted `before` of an awaited call -> %s' % v2['corrupt'][0])
+    if common.selftest_possible(ctx, cands, 'an awaited match with text before it'):
+        a = copy.deepcopy(cands[0]); a['id'] = 'corrupt'
+        for e in a['ev']:
+            if e['e'] == 'ret' and e['kind'] == 'match' and e['before']:
+                e['before'] = e['before'][1:]
+                break
+        v2, _ = tracecheck.validate([a], 'ExpectTrace', ctx.work, constants=TRACE_CONSTS, procs=1, tag='selftest')
+        if v2['corrupt'][0] == 'ok':
+            raise tlc.TLCError('self-test: corrupted awaited trace accepted')
+        ctx.note('binding self-test: corrupted `before` of an awaited call -> %s' % v2['corrupt'][0])
     status, nviol, nknown = common.conclude(ctx)
     evidence.write('C14', ctx.tier, ctx.seed, 'model_checking', {
         'states': mc['distinct'], 'transitions': mc['generated'], 'traces_validated_against_impl': len(uniq),
